@@ -277,31 +277,35 @@ def gen_cpl(rng):
     return pr
 
 
-def gen_gp(rng):
-    """geometric program in convex form, strictly feasible, bounded (box)"""
-    n = rng.randint(1, 3)
-    xs = np.array([rng.uniform(-1, 1) for _ in range(n)])
-    m = rng.choice([0, 1, 2])
+def gen_gp(rng, steep=False):
+    """geometric program in convex form, strictly feasible, bounded (box).
+    steep: 4..8 variables and exponents N(0, 4..8): the merit function of cpl then varies over many orders of magnitude
+    inside the box, which is what drives cpl through its relaxed line-search state machine (series saved, resumed,
+    ended) - about 7% of such programs reach the 'resume last saved line search' branch, against < 0.1% of the tame ones."""
+    n = rng.randint(4, 8) if steep else rng.randint(1, 3)
+    sig = rng.choice([4.0, 6.0, 8.0]) if steep else 1.0
+    xs = np.array([rng.uniform(-1, 1) for _ in range(n)]) if not steep else np.zeros(n)
+    m = rng.choice([1, 2, 3]) if steep else rng.choice([0, 1, 2])
     K, Fs, gs, funcs = [], [], [], []
     for i in range(m + 1):
-        Ki = rng.randint(1, 3)
-        Fi = np.array([[rng.gauss(0, 1) for _ in range(n)] for _ in range(Ki)])
+        Ki = rng.randint(1, 4) if steep else rng.randint(1, 3)
+        Fi = np.array([[rng.gauss(0, sig) for _ in range(n)] for _ in range(Ki)])
         gi = np.array([rng.uniform(-1, 1) for _ in range(Ki)])
         if i > 0:
             # make f_i(xs) = -margin: shift g
             v = LSE(Fi, gi).val(xs)
             gi = gi - v - rng.uniform(0.3, 1.5)
         K.append(Ki); Fs.append(Fi); gs.append(gi); funcs.append(LSE(Fi, gi))
-    box = 3.0
+    box = rng.uniform(1.5, 3.0) if steep else 3.0
     Gb = np.vstack([np.eye(n), -np.eye(n)])
     hb = np.concatenate([xs + box, -xs + box])
-    k2 = rng.choice([0, 1, 2])
+    k2 = 0 if steep else rng.choice([0, 1, 2])
     Ge = np.array([[rng.gauss(0, 1) for _ in range(n)] for _ in range(k2)]).reshape(k2, n)
     he = Ge @ xs + np.array([rng.uniform(0.3, 2) for _ in range(k2)])
     G = np.vstack([Gb, Ge]); h = np.concatenate([hb, he])
-    p = rng.choice([0, 0, 1]) if n > 1 else 0
+    p = 0 if steep else (rng.choice([0, 0, 1]) if n > 1 else 0)
     A = gp.rand_sv_matrix(rng, p, n, 0.5, 2.0); b = A @ xs
-    pr = NLProb(kind="cp", family="gp", n=n, funcs=funcs, dims=Dims(G.shape[0]), G=G, h=h, A=A, b=b, xs=xs, junkH=None,
+    pr = NLProb(kind="cp", family="gp-steep" if steep else "gp", n=n, funcs=funcs, dims=Dims(G.shape[0]), G=G, h=h, A=A, b=b, xs=xs, junkH=None,
                 K=K, Fgp=np.vstack(Fs), ggp=np.concatenate(gs))
     pr.x0 = np.zeros(n)
     return pr
